@@ -4,6 +4,7 @@ import (
 	"fmt"
 	public_types "lunar/engine/streams/public-types"
 	"lunar/toolkit-core/clock"
+	"lunar/toolkit-core/verifhook"
 	"sync"
 	"time"
 
@@ -110,6 +111,7 @@ func (p *memoryState[T]) AtomicSAddWithMaxValuesAllowed(
 	set, err := p.contextMemory.Get(key)
 
 	if len(set.([]string)) >= int(maxAllowed) {
+		verifhook.Point("cq.sadd", "key", key, "member", value, "ok", false, "n", len(set.([]string)))
 		return false, nil
 	}
 
@@ -121,6 +123,7 @@ func (p *memoryState[T]) AtomicSAddWithMaxValuesAllowed(
 	if err != nil {
 		return false, err
 	}
+	verifhook.Point("cq.sadd", "key", key, "member", value, "ok", true, "n", len(set.([]string)))
 
 	return true, nil
 }
@@ -178,6 +181,7 @@ func (p *memoryState[T]) SRem(key string, value string) error {
 	}
 
 	err = p.contextMemory.Set(key, set)
+	verifhook.Point("cq.srem", "key", key, "member", value, "n", len(set.([]string)))
 	return err
 }
 
